@@ -102,7 +102,27 @@ func (w *c08World) bodyOf(data []byte) rt.M {
 			files = append(files, f)
 		}
 	}
-	return rt.M{"st": "body", "by": by, "files": files, "complete": true, "week": r.Week}
+	// every program report must hold exactly the sum over the files of ITS build
+	// (the five build fields), and no build may appear twice
+	buildsOK := true
+	seen := map[string]bool{}
+	for _, p := range r.Programs {
+		key := p.Program + "|" + p.Version + "|" + p.GoVersion + "|" + p.GOOS + "|" + p.GOARCH
+		if seen[key] || p.Program != "prog" || p.Version != "v1.0.0" || p.GoVersion != "go1.21.0" || p.GOOS != "linux" {
+			buildsOK = false
+		}
+		seen[key] = true
+		var want int64
+		for _, f := range files {
+			if c08Arch(f) == p.GOARCH {
+				want += 1 << uint(f)
+			}
+		}
+		if p.Counters["c"] != want || len(p.Counters) > 1 || len(p.Stacks) > 0 {
+			buildsOK = false
+		}
+	}
+	return rt.M{"st": "body", "by": by, "files": files, "complete": true, "week": r.Week, "buildsok": buildsOK}
 }
 
 func (w *c08World) fileState(path string) rt.M {
@@ -154,7 +174,16 @@ func (w *c08World) project() rt.M {
 		"alive": alive, "untouched": untouched, "quiet": quiet}
 }
 
-func c08CountName(f int) string { return fmt.Sprintf("f%d-prog@v1.0.0-go1.21.0-linux-amd64-2024-01-01.v1.count", f) }
+func c08Arch(f int) string {
+	if f%2 == 0 {
+		return "386"
+	}
+	return "amd64"
+}
+
+func c08CountName(f int) string {
+	return fmt.Sprintf("f%d-prog@v1.0.0-go1.21.0-linux-%s-2024-01-01.v1.count", f, c08Arch(f))
+}
 
 func TestVerifC08(t *testing.T) {
 	defer rt.Flush()
@@ -189,7 +218,7 @@ func c08One(t *testing.T, run *c08Run) {
 	writeCount := func(i, f int) {
 		end := c08WeekDate[run.WeekOf[i]]
 		endT, _ := time.Parse("2006-01-02", end)
-		meta := rt.V1Meta(endT.AddDate(0, 0, -7).Format(time.RFC3339), endT.Format(time.RFC3339), "prog", "v1.0.0", "go1.21.0", "linux", "amd64")
+		meta := rt.V1Meta(endT.AddDate(0, 0, -7).Format(time.RFC3339), endT.Format(time.RFC3339), "prog", "v1.0.0", "go1.21.0", "linux", c08Arch(f))
 		data, err := rt.WriteV1(meta, []rt.V1Entry{{Name: "c", Value: 1 << uint(f)}})
 		if err != nil {
 			t.Fatal(err)
@@ -214,7 +243,7 @@ func c08One(t *testing.T, run *c08Run) {
 		os.WriteFile(p2, junk, 0666)
 		w.extras[p2] = sha(junk)
 	}
-	cfg := &telemetry.UploadConfig{GOOS: []string{"linux"}, GOARCH: []string{"amd64"}, GoVersion: []string{"go1.21.0"}, SampleRate: 1,
+	cfg := &telemetry.UploadConfig{GOOS: []string{"linux"}, GOARCH: []string{"amd64", "386"}, GoVersion: []string{"go1.21.0"}, SampleRate: 1,
 		Programs: []*telemetry.ProgramConfig{{Name: "prog", Versions: []string{"v1.0.0"}, Counters: []telemetry.CounterConfig{{Name: "c", Rate: 1}}}}}
 
 	srv := httptest.NewServer(http.HandlerFunc(func(rw http.ResponseWriter, r *http.Request) {
